@@ -395,6 +395,16 @@ class Ctx:
                 return Rat.const(Fraction(rn, rd))
         key = ("sqrt", r.key())
         s = self._memo.get(key)
+        if s is None and not r.d and len(r.n.t) == 1:
+            # c * m^2 with c a rational square: sqrt = |sqrt(c) m| (forks on the sign, like abs) - no auxiliary variable
+            (m, c), = r.n.t.items()
+            if c > 0 and all(k % 2 == 0 for _, k in m):
+                rn, rd = math.isqrt(c.numerator), math.isqrt(c.denominator)
+                if rn * rn == c.numerator and rd * rd == c.denominator:
+                    q = Rat(A.Poly({tuple((v, k // 2) for v, k in m): Fraction(rn, rd)}))
+                    s = q if self.branch(B.cmp("<=", -q.n)) else -q
+                    self._memo[key] = s
+                    return s
         if s is None:
             sp = r.sign_poly()
             nonneg = B.cmp("<=", -sp)
@@ -943,7 +953,15 @@ class SymK:
             r = self.c[0]
             if r.is_const():
                 return SymK.real_(Rat.const(abs(r.cval())))
-            if cur().branch(B.cmp("<=", -r.sign_poly())):
+            # canonical orientation (the sign test is made on the representative with positive leading coefficient) so that
+            # |p| and |-p| - and sqrt(p^2) - fork on the same predicate
+            sp = r.sign_poly()
+            lead = sp.t[max(sp.t, key=lambda m: A._MKey(m, len(A._names)))]
+            if lead < 0:
+                if cur().branch(B.cmp("<=", sp)):
+                    return -self
+                return self
+            if cur().branch(B.cmp("<=", -sp)):
                 return self
             return -self
         return self.abs2().sqrt()
